@@ -200,8 +200,15 @@ impl Parser for Markdown {
                 | pulldown_cmark::Event::End(pulldown_cmark::TagEnd::Heading(_))
                 | pulldown_cmark::Event::End(pulldown_cmark::TagEnd::CodeBlock)
                 | pulldown_cmark::Event::End(pulldown_cmark::TagEnd::TableCell) => {
+                    // `traversed_chars` is where the block's last piece of text *started*. The
+                    // break belongs behind that text, or it ends up in front of (and out of
+                    // order with) the tokens it is supposed to follow.
+                    let break_at = tokens
+                        .last()
+                        .map_or(traversed_chars, |tok| tok.span.end.max(traversed_chars));
+
                     tokens.push(Token {
-                        span: Span::new_with_len(traversed_chars, 0),
+                        span: Span::new_with_len(break_at, 0),
                         kind: TokenKind::ParagraphBreak,
                     });
                     stack.pop();
